@@ -47,11 +47,12 @@ def items(tier):
             its.append({"key": f"{fam}|min|{i:05d}|{h}", "kind": "pack", "full": False, "exprs": ch,
                         "sample": {"family": fam, "first": [L.render(e) for e in ch[:3]], "n": len(ch)}})
     specs = models.e3_specs(tier, variants=True)
+    deg = models.degenerate_specs() + [(k, s) for k, s in models.rate_specs() if k.split("|")[1] not in ("floor(x)", "Mod(x,p)")]
     if tier == "quick":
         # quick: naming 0 only; base layout for shapes with <= 1 intermediate, plus every variant item
         nsh = {i: len(sh[0]) for i, sh in enumerate(models.e3_shapes(tier))}
         specs = [(k, s) for k, s in specs if "|n0|" in k and (not k.endswith("|def|flat|-") or nsh[int(k.split("|")[1])] <= 1)]
-    for ch in E.chunks(specs, 12):
+    for ch in E.chunks(deg + specs, 12):
         its.append({"key": f"{ch[0][0]}..{ch[-1][0]}", "kind": "models", "specs": [[k, s] for k, s in ch],
                     "sample": {"family": "E3", "first_key": ch[0][0], "first_text": models.spec_text(ch[0][1]), "n": len(ch)}})
     return its
